@@ -59,7 +59,7 @@ def feature_table(draw, n_cols, max_levels=3, max_rows=24, min_rows=1, cell_size
 # ---- containers ----------------------------------------------------------------------------------
 
 INDEX_PLANS = ["default", "rev", "offset", "dup", "str", "shuffled"]
-VECTOR_KINDS = ["list", "ndarray", "ndarray2d", "series", "dataframe"]
+VECTOR_KINDS = ["list", "ndarray", "ndarray2d", "series", "dataframe", "ndarray_readonly", "ndarray_strided"]
 
 
 def make_index(plan, n):
@@ -103,6 +103,17 @@ def wrap_vector(kind, values, index_plan="default", name=None):
         return to_ndarray(values).reshape(n, 1)
     if kind == "ndarray_object":
         return _obj_array(list(values))
+    if kind == "ndarray_readonly":
+        arr = to_ndarray(values).copy()
+        arr.setflags(write=False)
+        return arr
+    if kind == "ndarray_strided":
+        # a non-contiguous view (every second element of a longer buffer)
+        base = to_ndarray(list(values) + list(values))
+        buf = np.empty(2 * n, dtype=base.dtype)
+        buf[0::2] = base[:n]
+        buf[1::2] = base[n:][::-1] if n else base[n:]
+        return buf[0::2]
     if kind == "series_object":
         return pd.Series(_obj_array(list(values)), index=make_index(index_plan, n), name=name, dtype=object)
     if kind == "series":
@@ -113,7 +124,7 @@ def wrap_vector(kind, values, index_plan="default", name=None):
 
 
 vector_kind = st.sampled_from(VECTOR_KINDS)
-vector_kind_pandas_heavy = st.sampled_from(["series", "dataframe", "series", "list", "ndarray", "ndarray2d"])
+vector_kind_pandas_heavy = st.sampled_from(["series", "dataframe", "series", "list", "ndarray", "ndarray2d", "ndarray_readonly", "ndarray_strided"])
 index_plan = st.sampled_from(INDEX_PLANS)
 
 
@@ -166,3 +177,42 @@ real_weights = st.one_of(
 def eq_key(v):
     """Hashable key identifying a group value the way Python equality does (True == 1 aside)."""
     return (type(v).__name__, v)
+
+
+def snapshot(obj):
+    """A deep copy of an argument container for later comparison with :func:`unchanged`."""
+    import copy
+
+    return copy.deepcopy(obj)
+
+
+def unchanged(before, after):
+    """True when an argument container still holds what it held before the call (values, index, columns, keys)."""
+    if isinstance(before, dict):
+        return isinstance(after, dict) and list(before) == list(after) and all(unchanged(before[k], after[k]) for k in before)
+    if isinstance(before, pd.DataFrame):
+        return isinstance(after, pd.DataFrame) and list(before.columns) == list(after.columns) and \
+            before.index.equals(after.index) and before.astype(object).equals(after.astype(object))
+    if isinstance(before, pd.Series):
+        return isinstance(after, pd.Series) and before.index.equals(after.index) and before.name == after.name and \
+            before.astype(object).equals(after.astype(object))
+    if isinstance(before, np.ndarray):
+        return isinstance(after, np.ndarray) and before.shape == after.shape and before.dtype == after.dtype and \
+            bool(np.all((before == after) | ((before != before) & (after != after))))
+    if isinstance(before, (list, tuple)):
+        return type(before) is type(after) and len(before) == len(after) and all(unchanged(a, b) for a, b in zip(before, after))
+    if callable(before):
+        return True
+    try:
+        return bool(before == after) or (before != before and after != after)
+    except Exception:  # noqa: BLE001
+        return True
+
+
+def global_state():
+    """Fingerprint of process-global state a library call must leave alone when it is given its own random_state:
+    numpy's legacy global RNG, numpy's floating-point error handling, the number of warnings filters."""
+    import warnings
+
+    st_ = np.random.get_state()
+    return (hash(st_[1].tobytes()), int(st_[2]), tuple(sorted(np.geterr().items())), len(warnings.filters))
